@@ -403,6 +403,24 @@ impl<'a> Gen<'a> {
                 let hi = self.scalar(scope, K::I, depth - 1);
                 X::Between(b(e), self.rng.chance(1, 4), b(lo), b(hi))
             }
+            7 if self.rng.chance(1, 4) => {
+                // row-value IN: (c1, c2) IN ((v, v), ..)
+                let c1 = self.scalar(scope, K::I, 0);
+                let c2 = self.scalar(scope, K::I, 0);
+                let nrows = 1 + self.rng.below(3);
+                let mut rows = vec![];
+                for _ in 0..nrows {
+                    let mut row = vec![];
+                    for _ in 0..2 {
+                        row.push(match self.int_val() {
+                            X::Int(v) => Value::BigInt(Some(v)),
+                            _ => Value::BigInt(Some(1)),
+                        });
+                    }
+                    rows.push(row);
+                }
+                X::InTuples(vec![c1, c2], rows)
+            }
             7 => {
                 let e = self.scalar(scope, k, depth - 1);
                 let n = self.rng.below(4);
@@ -851,6 +869,15 @@ impl<'a> Gen<'a> {
                 if !u.groups.is_empty() && u.items.iter().filter(|i| u.groups.contains(&i.expr)).count() < u.groups.len() {
                     // group keys were cut: keep it valid by dropping grouping
                     continue;
+                }
+                if !self.cfg.exec && (self.cfg.is(Dialect::Mysql) || self.cfg.is(Dialect::Postgres)) && !u.out.is_empty() && self.rng.chance(1, 4) {
+                    // an operand with its own ORDER BY / LIMIT (parenthesised operands: not a SQLite feature)
+                    let c: &'static str = crate::util::intern(&u.out[0]);
+                    u.orders.push(Ord_ { expr: X::Col(c), dir: if self.rng.coin() { Dir::Asc } else { Dir::Desc }, nulls_first: None });
+                    u.limit = Some(1 + self.rng.below(5) as u64);
+                    if self.rng.coin() {
+                        u.offset = Some(self.rng.below(3) as u64);
+                    }
                 }
                 let op = *self.rng.pick(&[SetOp::Union, SetOp::UnionAll, SetOp::Intersect, SetOp::Except]);
                 s.unions.push((op, u));
